@@ -19,3 +19,7 @@ Check Props.C03.C03_lifecycle : forall tr, accepts tr = true -> Chk.C03.chk_C03 
 
 From Hannibal Require Chk.C14 Props.C14.
 Check Props.C14.C14_truth : forall tr, accepts tr = true -> Chk.C14.chk_C14 tr = true.
+
+From Hannibal Require Chk.C13 Props.C13.
+Check Props.C13.C13_items_in_order_never_abandoned : forall tr, accepts tr = true -> Chk.C13.chk_C13 tr = true.
+Check Props.C13.C13_end_protocol : forall tr, accepts tr = true -> Chk.C03.chk_C03 tr = true.
